@@ -1929,8 +1929,17 @@ impl<'de, 'e> de::Deserializer<'de> for YamlDeserializer<'de, 'e> {
             #[cfg(any(feature = "garde", feature = "validator"))]
             idx: 0,
         })?;
-        if let Some(Ev::SeqEnd { .. }) = self.ev.peek()? {
-            let _ = self.ev.next()?;
+        // The visitor may stop before the end of the YAML sequence (tuples and tuple structs
+        // take exactly their arity). Surplus elements must not be left in the stream for a
+        // neighbouring position to pick up: the sequence has to end here.
+        match self.ev.peek()? {
+            Some(Ev::SeqEnd { .. }) => {
+                let _ = self.ev.next()?;
+            }
+            Some(other) => {
+                return Err(Error::unexpected("sequence end").with_location(other.location()));
+            }
+            None => return Err(Error::eof().with_location(self.ev.last_location())),
         }
         Ok(result)
     }
